@@ -15,7 +15,7 @@ for every size 1..N and compared with the window the traced source uses and with
 Direct oracles: finite, resolution, |h| = 1, phase range / grid, re-propagation of the returned hologram with the same
 settings (a fresh propagator object for the class-based optimisers), double-phase reference in float64.
 """
-import json, math
+import json, math, types
 import numpy as np
 import torch
 from harness.common import parse_zlist
@@ -283,10 +283,15 @@ def oracle_swdp(inp):
                                       sigma=inp['sigma'], amplitude=amplitude)
     except Exception as e:
         return [(fn, 'returns', False, 'a phase-only hologram', repr(e)[:200])]
-    out = [(fn, 'finite', finite(out_), True, finite(out_)),
-           (fn, 'resolution', list(out_.shape) == list(shape), list(shape), list(out_.shape))]
-    if not finite(out_) or list(out_.shape) != list(shape): return out
     ref, cond = swdp_reference(phase, torch.ones_like(phase) if amplitude is None else amplitude, inp)
+    out = [(fn, 'resolution', list(out_.shape) == list(shape), list(shape), list(out_.shape))]
+    if cond['amax'] <= 1e-30:
+        # the propagated field vanishes identically (e.g. an all-zero band-limit mask): amplitude / max amplitude is 0/0 and there is
+        # nothing to encode; outside the conditioned domain of the finiteness clause (see notes/C07_report.md, limits)
+        out.append((fn, 'ill_conditioned_reference_skipped', True, None, cond))
+        return out
+    out.append((fn, 'finite', finite(out_), True, finite(out_)))
+    if not finite(out_) or list(out_.shape) != list(shape): return out
     well = cond['amax'] > 1e-6 and cond['branch_margin'] > 2e-3 and abs(TWO_PI * inp['ds'] / inp['lam']) < 2e3
     if well:
         d = float(np.abs(tnp(out_).astype(np.float64) - ref).max())
@@ -436,7 +441,10 @@ def self_check(ctx, g):
             k = int(rng.integers(0, 2 ** b)); m = int(rng.integers(-3, 4))
             x = (k + 0.5 + rng.uniform(-0.3, 0.3)) * TWO_PI / 2 ** b + TWO_PI * m
             x32 = float(np.float32(x))
-            real = float((LT.quantize(torch.tensor([x32]) % (2 * torch.pi), bits=b, limits=[0., 2 * torch.pi]) / 2 ** b * 2 * torch.pi)[0])
+            # the real optimize() of the current source, run on a stand-in object whose gradient_descent() returns x
+            me = types.SimpleNamespace(init_optimizer=lambda: None, gradient_descent=lambda **k: torch.tensor([[[x32]]]), peak_amplitude=1.0,
+                                       propagator=types.SimpleNamespace(reconstruct=lambda q: q, get_laser_powers=lambda: None, channel_power=None))
+            real = float(L.multi_color_hologram_optimizer.optimize(me, number_of_iterations=1, bits=b)[0].reshape(-1)[0])
             cmp(g.evalf('mc_phase_b%d_0_0_0' % b, {'g_0_0_0': x32}), real, 2e-6, 'quantised phase b=%d x=%r' % (b, x32))
     # shift_w_double_phase: stages A, B, C composed numerically on the 3 x 4 trace grid against the real function
     H0, W0 = recipe.H0, recipe.W0
@@ -551,7 +559,7 @@ def search(ctx):
         s = [rng.choice([3, 5, 7, 9, 6, 8]), rng.choice([5, 7, 9, 6, 8])]
         apply_oracle(ctx, 'gs_numpy', {'cat': 'search', 'shape': s, 'fseed': i, 'seed': i, 'n': 1 + i % 3, 'z': z, 'dx': dx, 'lam': lam, 'method': N_METHODS[i % 4]}, count=False)
         apply_oracle(ctx, 'swdp', {'cat': 'search', 'shape': s, 'fseed': i, 'ds': -rng.uniform(5.0, 2000.0) * lam * (1 if i % 2 else -1), 'dx': dx, 'lam': lam,
-                                   'method': T_METHODS[i % 3], 'kernel_length': 4, 'sigma': 0.5, 'amplitude': None}, count=False)
+                                   'method': T_METHODS[2 * (i % 2)], 'kernel_length': 4, 'sigma': 0.5, 'amplitude': None}, count=False)
         apply_oracle(ctx, 'gs_torch', {'cat': 'search', 'shape': s, 'fseed': i, 'n': 1 + i % 3, 'z': z, 'dx': dx, 'lam': lam, 'method': T_METHODS[i % 3]}, count=False)
         apply_oracle(ctx, 'sgd', {'cat': 'search', 'shape': s, 'fseed': i, 'seed': i, 'n': 1 + i % 3, 'z': z, 'dx': dx, 'lam': lam, 'method': T_METHODS[i % 3]}, count=False)
         apply_oracle(ctx, 'multiplane', {'cat': 'search', 'res': s, 'fseed': i, 'seed': i, 'n': 1 + i % 2, 'planes': 1 + i % 3, 'lam': lam, 'dx': dx, 'location': z / 4, 'spacing': 1.0,
